@@ -492,6 +492,15 @@ def _session(prop, rng, n_req):
             h += 1
         else:
             evs.append({"ev": "parse", "form": f, "client": client, "latent": latent})
+            if rng.random() < 0.15:
+                # the same question again a little earlier / later on the same day (an answer
+                # remembered per text or per reference *day* is wrong as soon as the hour matters)
+                s_ = rng.choice([-3600, -7200, -5 * 3600, 3600, 3 * 3600, -60, 60, -11 * 3600])
+                nt = t + timedelta(seconds=s_)
+                if nt.date() == t.date():
+                    evs.append({"ev": "jump", "s": s_})
+                    t = nt
+                    evs.append({"ev": "parse", "form": f, "client": client, "latent": latent})
         # a read advances the host clock
         if client is None and case["read_advance_us"]:
             t = t + timedelta(microseconds=case["read_advance_us"])
